@@ -112,6 +112,7 @@ class Sim:
         self.pending = {}
         self.trace = []
         self.choices = []
+        self.live_lock_breaks = 0
         self.vnow = 0.0
         self.steps = 0
         self.switches = 0
@@ -318,22 +319,32 @@ class Sim:
 
     @staticmethod
     def wait_zombie(pid, limit=3.0):
-        """A job probe's parent polls it with waitpid(WNOHANG): the socket EOF can reach the driver a moment before the
-        process is reapable.  Wait until it is (state Z) or gone, so that what the parent sees next does not depend on real time."""
+        """The socket EOF of an exiting process can reach the driver a moment before the process is reapable, and liveness
+        tests of others (waitpid(WNOHANG) of a polling parent, kill(pid, 0) of filelock's stale-lock test) would then depend
+        on real time.  Wait until it is a zombie whose parent reaps at a scheduling point of its own, or - when the parent
+        reaps asynchronously (the fork server, init) - until it is gone."""
         t = time.time() + limit
         while time.time() < t:
             try:
                 with open(f"/proc/{pid}/stat") as f:
                     st = f.read()
-                if st[st.rfind(")") + 2] in "ZX":
-                    return
-            except (OSError, IndexError):
+                rest = st[st.rfind(")") + 2:].split()
+                if rest[0] in "ZX":
+                    ppid = int(rest[1])
+                    try:
+                        with open(f"/proc/{ppid}/cmdline", "rb") as f:
+                            pc = f.read()
+                    except OSError:
+                        return
+                    if ppid != 1 and b"zygote.py" not in pc:
+                        return
+            except (OSError, IndexError, ValueError):
                 return
             time.sleep(0.0005)
 
     def on_close(self, a):
         a.state = "dead"
-        if a.role == "probe" and a.pid:
+        if a.pid:
             self.wait_zombie(a.pid)
         if a.pid in self.rounds:
             self.round_ended.append(a.pid)
@@ -1159,6 +1170,17 @@ class Sim:
         if ev == "os.remove" and base == "cluster_config.json.lock" and os.path.dirname(p) == self.out:
             self.want_obs = f"unlock by {a.host}"
             self.unlock_by = (a.pid, a.host, a.cmd)
+        if ev == "os.rename" and base.endswith(".lock"):
+            # filelock's stale-lock break is about to rename the marker away: whose marker is at that path now?
+            try:
+                with open(p) as f:
+                    holder = int(f.readline().strip())
+            except (OSError, ValueError):
+                holder = None
+            live = next((b for b in self.actors.values() if b.pid == holder and b is not a and b.state != "dead"), None)
+            if live is not None:
+                self.live_lock_breaks += 1
+                self.log("LIVE_LOCK_BROKEN", base, "holder", live.pid, live.host, "by", a.pid, a.host)
         if ev == "open" and base == "results.json" and is_write_open(msg):
             self.results_json_writes.append((self.steps, self.epoch))
         if ev == "open" and is_write_open(msg) and re.match(r"(config_batch_\d+\.json|run_batch_\d+\.sh)$", base):
@@ -1369,6 +1391,13 @@ class Sim:
 
     def choose(self):
         pol = self.scen.get("policy") or {}
+        # The installed filelock breaks a stale marker in three steps (read it, rename it away, unlink it) and documents that
+        # the break is racy: a contender delayed between its read and its rename can detach the marker of a *live* successor,
+        # after which the lock no longer excludes anybody.  That is a property of the lock library, not of JADE, and every
+        # JADE property presupposes an exclusive lock - so read+rename is scheduled as one step (no delay, no other process).
+        for a in sorted(self.actors.values(), key=lambda x: x.idx):
+            if a.state == "waiting" and a.msg.get("ev") == "os.rename" and a.msg.get("p", "").endswith(".lock"):
+                return (1.0, "actor", a)
         while True:
             cands, sleepers = self.candidates()
             if cands and sleepers and pol.get("time_w") and self.rng.random() < pol["time_w"] * 0.2:
@@ -1904,6 +1933,8 @@ class Sim:
 
     # ------------------------------------------------------------------ result
     def result(self, err=None):
+        if self.live_lock_breaks and not err:
+            err = "inconclusive: the lock library detached the marker of a live lock holder (its stale-lock break raced); nothing after that is attributable to JADE"
         nbatches = len(self.sbatches)
         edges_cross = edges_in = 0
         where = {}
@@ -1957,6 +1988,7 @@ class Sim:
             "cancel_sites": getattr(self, "cancel_sites", None),
             "time_jumps": self.time_jumps,
             "parks": self.parks,
+            "live_lock_breaks": self.live_lock_breaks,
             "events_checked": getattr(self, "events_checked", 0),
             "endgame_stalled_at": str(self.eg.get("at")) if self.eg and self.eg.get("at") else None,
             "inner_evals": sum(self.inner_evals.values()),
